@@ -211,6 +211,9 @@ pub fn diff_subjects(
         for method in uni.all_methods() {
             for &line in &uni.lines {
                 for file in files {
+                    if file.is_some() && line > 200 {
+                        continue;
+                    }
                     byline(class, method, line, file, acc);
                 }
             }
@@ -401,11 +404,11 @@ pub fn run(tier: Tier) -> i32 {
         Box::new(ms_a(2, t)),
         Box::new(ms_a_wide(if t { 2 } else { 1 })),
         Box::new(ms_a_large(1)),
-        Box::new(ms_b(if t { 5 } else { 4 }, true)),
-        Box::new(ms_b(if t { 6 } else { 5 }, false)),
+        Box::new(ms_b(if t { 5 } else { 3 }, true)),
+        Box::new(ms_b(5, false)),
         Box::new(ms_c()),
         Box::new(ms_d(t)),
-        Box::new(ms_e(if t { 2 } else { 0 })),
+        Box::new(ms_e(if t { 1 } else { 0 })),
     ];
     let corpus = corpus_files();
     let mut items: Vec<Item> = Vec::new();
